@@ -1,6 +1,7 @@
 package main
 
 import (
+	"strings"
 	"go/token"
 	"go/types"
 
@@ -249,5 +250,71 @@ func runC17(c *Ctx) {
 			c.bad(w.asyncFlush, "queued frame released once", w.asyncFlush.Pos(), "no frame is ever queued (anchor moved)")
 		}
 	}
+	// ------------------------------------------------------------------------------------------------ R4
+	// the read buffer belongs to the read side: while a read is parked the transport holds a slice of its storage, so a
+	// write that reserves, resets or fills the read buffer (or a read that touches the write buffer while a transport
+	// write drains it) moves the storage from under the operation in flight
+	c.rule("C17-R4", "buffer sides: the encode/write paths of the frame codecs and of CodecConn never call a method on the read buffer (field src), the decode/read paths never on the write buffer (field dst)", 8)
+	{
+		bbT := p.Named("sonic", "ByteBuffer")
+		onByteBuffer := func(callee *ssa.Function) bool {
+			if callee == nil || callee.Signature.Recv() == nil {
+				return false
+			}
+			t := callee.Signature.Recv().Type()
+			if pt, ok := t.(*types.Pointer); ok {
+				t = pt.Elem()
+			}
+			return types.Identical(t, bbT)
+		}
+		n := 0
+		owners := map[string]bool{modPath + "/" + ws + ".FrameCodec": true, modPath + "/codec/frame.Codec": true, modPath + ".CodecConn": true}
+		for _, fn := range p.Funcs {
+			if fn.Parent() != nil {
+				continue
+			}
+			pk, tn := recvTypeName(fn)
+			if !owners[pk+"."+tn] {
+				continue
+			}
+			side := ""
+			switch name := pinName(fn); {
+			case strings.HasPrefix(name, "Encode"), strings.HasPrefix(name, "WriteNext"), strings.HasPrefix(name, "AsyncWriteNext"):
+				side = "write"
+			case strings.HasPrefix(name, "Decode"), strings.HasPrefix(name, "ReadNext"), strings.HasPrefix(name, "AsyncReadNext"), name == "resetDecode":
+				side = "read"
+			default:
+				continue
+			}
+			foreign, fname := "dst", "write buffer (dst)"
+			if side == "write" {
+				foreign, fname = "src", "read buffer (src)"
+			}
+			n++
+			var badPos token.Pos
+			for _, g := range withClosures(fn) {
+				eachInstrDeep(g, func(in, site ssa.Instruction, tr func(ssa.Value) ssa.Value) {
+					call, ok := in.(ssa.CallInstruction)
+					if !ok || !onByteBuffer(call.Common().StaticCallee()) || len(call.Common().Args) == 0 {
+						return
+					}
+					if f := loadedField(stripConv(tr(call.Common().Args[0]))); f != nil && pinFieldName(f) == foreign {
+						badPos = site.Pos()
+					}
+				})
+			}
+			c.check(badPos == token.NoPos, fn, side+" side", firstPos(badPos, fn.Pos()), "touches only its own buffer", "the "+side+" path calls a ByteBuffer method on the "+fname+": its storage can be reallocated, reset or filled while the operation of the other direction is parked on a slice of it - bytes of the peer land in an orphaned array, or bytes in flight are overwritten")
+		}
+		if n < 8 {
+			c.bad(w.asyncFlush, "write side", w.asyncFlush.Pos(), "the encode/decode entry points of the codecs were not found (anchor moved): %d", n)
+		}
+	}
 	_ = token.ADD
+}
+
+func firstPos(a, b token.Pos) token.Pos {
+	if a != token.NoPos {
+		return a
+	}
+	return b
 }
